@@ -15,13 +15,20 @@ structure Held (l : Link M) : Prop where
   ba : l.stBA = .hold
   all : ∀ s ∈ l.sent, s.status = .hold
 
-/-- `hold()` establishes `Held`, whatever was in flight. -/
-theorem hold_establishes (l : Link M) : Held l.hold := by
+theorem held_holdRaw (l : Link M) : Held l.holdRaw := by
   refine ⟨rfl, rfl, ?_⟩
   intro s hs
-  simp only [Link.hold, List.mem_map] at hs
+  simp only [Link.holdRaw, List.mem_map] at hs
   obtain ⟨x, _, rfl⟩ := hs
   rfl
+
+/-- `hold()` establishes `Held`, whatever was in flight (both variants: with the repair of F-C08-1 the
+    ready messages are recalled into the in-flight queue first, and held with the rest). -/
+theorem hold_establishes (l : Link M) : Held l.hold := by
+  unfold Link.hold
+  split
+  · exact held_holdRaw _
+  · exact held_holdRaw _
 
 theorem filter_matured_held {l : Link M} (h : Held l) : l.sent.filter (matured l.now) = [] := by
   apply List.filter_eq_nil_iff.mpr
@@ -214,8 +221,31 @@ theorem perm_tick (l : Link M) (now : Nat) : (ids (l.tick now)).Perm (ids l) := 
   have := perm_process { l with now := now }
   simpa [tick, ids] using this
 
-theorem ids_hold (l : Link M) : ids l.hold = ids l := by
-  simp [ids, Link.hold, List.map_map, Function.comp_def]
+theorem ids_holdRaw (l : Link M) : ids l.holdRaw = ids l := by
+  simp [ids, Link.holdRaw, List.map_map, Function.comp_def]
+
+/-- `recall` only moves messages (from the ready queues to the front of the in-flight queue). -/
+theorem perm_recall (l : Link M) : (ids l.recall).Perm (ids l) := by
+  have e : ∀ xs : List (Sent M), (xs.map (fun s => ({ s with status := Status.after l.now } : Sent M))).map (·.id) =
+      xs.map (·.id) := by
+    intro xs; rw [List.map_map]; rfl
+  apply List.perm_iff_count.mpr
+  intro a
+  simp only [ids, Link.recall, List.map_append, List.append_nil, List.count_append, e]
+  omega
+
+/-- `hold` neither loses nor duplicates a message (both variants; without the repair of F-C08-1 the three
+    queues are untouched, `ids_hold_off`). -/
+theorem ids_hold (l : Link M) : (ids l.hold).Perm (ids l) := by
+  unfold Link.hold
+  split
+  · rw [ids_holdRaw]; exact perm_recall l
+  · rw [ids_holdRaw]
+
+theorem ids_hold_off (l : Link M) (h : l.fixMatured = false) : ids l.hold = ids l := by
+  unfold Link.hold
+  rw [h]
+  exact ids_holdRaw l
 
 theorem ids_release (l : Link M) : ids l.release = ids l := by
   have : ∀ s : Sent M, (releaseOne l.now s).id = s.id := by
